@@ -76,8 +76,8 @@ def check(ctx):
         ctx.ob("C12.S1", f"{cls.name}/codec-pair", okpair, loc(wr, wc),
                f"{wkind} / {rkind}" if okpair else f"write uses {wkind} but read uses {rkind}", norm(wc))
         if wkind == "touch":
-            guard = any(isinstance(n, ast.If) and norm(n.test) == f"{valp} is not None" and any(isinstance(s, ast.Raise) for s in n.body)
-                        for n in wr.own_nodes())
+            from .engine import path_condition, cond_set
+            guard = any(isinstance(n, ast.Raise) and cond_set(path_condition(wr.module, n, wr.node), valp) for n in wr.own_nodes())
             ctx.ob("C12.S1", f"{cls.name}/touch-domain", guard, loc(wr), "only None may be written" if guard else "touch store accepts values it cannot return")
         # raw text rule
         if not wb and wraw:
